@@ -550,6 +550,9 @@ class SurveyScenario(BaseScenario):
         """Large-loop pair: receiver coordinates -> coordinates of the loop it refers to; and the set of loops."""
         rx, tx = self.get(ws, pr["rx"]), self.get(ws, pr["px"])
         try:
+            for side, ent in (("receivers", rx), ("transmitters", tx)):
+                if ent.tx_id_property is None:
+                    raise Violation("C20", "loop_ids_missing", f"the {side} of a linked large-loop pair report no transmitter-id property", {"pair": pr["family"] if "family" in pr else "large", "side": side})
             rx_ids = np.asarray(rx.tx_id_property.values)
             tx_ids = np.asarray(tx.tx_id_property.values)
             cells, tverts, rverts = np.asarray(tx.cells), np.asarray(tx.vertices), np.asarray(rx.vertices)
